@@ -6,6 +6,7 @@ import VlsModel.Gen.FnKvvKeys
 import VlsModel.Gen.FnKvvPass
 import VlsModel.Gen.FnNodePrune
 import VlsModel.Gen.FnNodeForget
+import VlsModel.Gen.FnNodeStateRestore
 import VlsModel.Gen.FnKvvSuffix
 import VlsModel.Gen.FnNodeNewChannel
 import VlsModel.Gen.FnTrackerEntry
@@ -905,5 +906,47 @@ example : extract_key_suffix (fun _ => true) (fun _ _ => .ok "0a") (fun _ => som
     extract_key_suffix (fun _ => true) (fun _ _ => .ok "zz") (fun _ => none) "channel/" "channel/zz" = .error .panic := ⟨rfl, rfl⟩
 
 end KvvSuffix
+
+/-! ### `NodeState::restore` / `NodeState::with_log_prefix` translated (`Gen.FnNodeStateRestore`, `fn_targets/NodeStateRestore.b5.json`):
+    the last two stages of the node-state restore path (`get_nodes` → `NodeState::restore` → `Node::new_full` → `with_log_prefix`) -/
+section NodeStateRestore
+open VlsModel.Gen.FnNodeStateRestore
+
+/-- **C11_fn_node_state_restore**: `NodeState::restore` puts every persisted component into its own field: the high-water mark,
+    the excess amount and the two velocity controls as given, the invoices / issued invoices / payments as decoded from the
+    stored vectors, the allowlist collected from the stored vector — nothing is defaulted, swapped or dropped (the decoders
+    of the three maps are parameters; a hash of the wrong length aborts). -/
+theorem C11_fn_node_state_restore {VelocityControl ScriptBuf Xpub PublicKey PaymentHash : Type}
+    (dInv dIss : List (List Nat × PaymentState) → VlsModel.Rs.M (List (PaymentHash × PaymentState)))
+    (dPay : List (List Nat) → List (PaymentHash × RoutedPayment)) (emp : String)
+    (aset : List (Allowable ScriptBuf Xpub PublicKey) → List (Allowable ScriptBuf Xpub PublicKey))
+    (iv isv : List (List Nat × PaymentState)) (pre : List (List Nat)) (excess : Nat) (vc fvc : VelocityControl) (hwm : Nat)
+    (al : List (Allowable ScriptBuf Xpub PublicKey)) (inv iss : List (PaymentHash × PaymentState))
+    (hi : dInv iv = .ok inv) (hs : dIss isv = .ok iss) :
+    ∃ st, NodeState.restore dInv dIss dPay emp aset iv isv pre excess vc fvc hwm al = .ok st ∧
+      st.dbid_high_water_mark = hwm ∧ st.excess_amount = excess ∧ st.velocity_control = vc ∧ st.fee_velocity_control = fvc ∧
+      st.invoices = inv ∧ st.issued_invoices = iss ∧ st.payments = dPay pre ∧ st.allowlist = aset al := by
+  unfold NodeState.restore
+  simp only [hi, hs, bind, Except.bind, pure, Except.pure]
+  exact ⟨_, rfl, rfl, rfl, rfl, rfl, rfl, rfl, rfl, rfl⟩
+
+/-- **C11_fn_node_state_with_log_prefix**: the step by which `Node::new_full` installs the restored state keeps every durable
+    component of it (high-water mark, invoices, issued invoices, payments, excess amount, allowlist) and takes the two
+    velocity controls it is handed (`update_velocity_controls` decides those: C12). -/
+theorem C11_fn_node_state_with_log_prefix {PaymentHash VelocityControl ScriptBuf Xpub PublicKey : Type} (emp : String)
+    (s : NodeState PaymentHash VelocityControl ScriptBuf Xpub PublicKey) (vc fvc : VelocityControl) (lp : String) :
+    let s' := s.with_log_prefix emp vc fvc lp
+    s'.dbid_high_water_mark = s.dbid_high_water_mark ∧ s'.invoices = s.invoices ∧ s'.issued_invoices = s.issued_invoices ∧
+    s'.payments = s.payments ∧ s'.excess_amount = s.excess_amount ∧ s'.allowlist = s.allowlist ∧
+    s'.velocity_control = vc ∧ s'.fee_velocity_control = fvc ∧ s'.log_prefix = lp :=
+  ⟨rfl, rfl, rfl, rfl, rfl, rfl, rfl, rfl, rfl⟩
+
+/-- non-vacuity: a stored state with mark 7 comes back with mark 7 -/
+example :
+    (NodeState.restore (VelocityControl := Nat) (ScriptBuf := Nat) (Xpub := Nat) (PublicKey := Nat) (PaymentHash := Nat)
+      (fun l => .ok (l.map (fun x => (x.1.length, x.2)))) (fun _ => .ok []) (fun _ => []) "" id [([1], ⟨⟩)] [] [] 0 5 6 7 []).map
+      (fun st => (st.dbid_high_water_mark, st.velocity_control, st.fee_velocity_control, st.invoices.length)) = .ok (7, 5, 6, 1) := rfl
+
+end NodeStateRestore
 
 end VlsModel.Props.C11Fn
